@@ -1,8 +1,332 @@
-//! C05 WebSocket-server sub-checks (filled in with the WebSocket server driver).
-use crate::engine::*;
-use serde_json::Value;
+//! C05 WebSocket-server sub-check: inline and off-reader responses, notifies pushed
+//! by handlers and broadcasts from another thread all go through one connection
+//! while the peer stalls; every WebSocket message the peer receives must be exactly
+//! one whole frame, byte-for-byte the image of one message the server side issued.
 
-pub fn run(_ctx: &Ctx, _rep: &Report) {}
-pub fn replay(sub: &str, _case: &Value) -> Result<(), Fail> {
-    Err(Fail::new("replay-unknown-sub", sub.to_string()))
+use crate::engine::*;
+use crate::ensure;
+use crate::oracle::codec::{self, OHeader};
+use crate::peers::dws;
+use crate::peers::net::frame_with;
+use crate::util::block_on_mt as block_on;
+use futures_util::{SinkExt, StreamExt};
+use proptest::prelude::*;
+use repe::tokio_tungstenite::tungstenite::Message as WsMessage;
+use repe::websocket_server::WebSocketServer;
+use repe::server::{Execution, HandlerErased};
+use repe::{BodyFormat, CallContext, Message, NotifyBody, PeerRegistry, RepeError, Router};
+use serde::{Deserialize, Serialize};
+use serde_json::Value;
+use std::sync::{Arc, Mutex};
+use std::time::Duration;
+
+const SIZES: [usize; 10] = [0, 1, 100, 4095, 4096, 4097, 65_536, 70_001, 1 << 20, 3 << 20];
+
+#[derive(Debug, Clone, Serialize, Deserialize, Hash, PartialEq, Eq)]
+pub struct Req {
+    pub off_reader: bool,
+    pub size: u8,
+    /// notifies the handler pushes to its caller before answering
+    pub pushes: Vec<u8>,
+}
+
+#[derive(Debug, Clone, Serialize, Deserialize, Hash, PartialEq, Eq)]
+pub struct WsCase {
+    pub reqs: Vec<Req>,
+    /// broadcasts issued from another thread while the requests are in flight
+    pub broadcasts: Vec<u8>,
+    /// the peer stops reading for this long after the first message
+    pub stall_ms: u8,
+    /// duplex pipe size selector
+    pub buf: u8,
+    /// outbound queue capacity selector
+    pub capacity: u8,
+}
+
+/// (path, body length, fill byte, queued successfully)
+type Pushed = Arc<Mutex<Vec<(&'static str, usize, u8, bool)>>>;
+
+struct Work {
+    off_reader: bool,
+    pushed: Pushed,
+}
+
+impl HandlerErased for Work {
+    fn handle(&self, req: &Message) -> Result<Message, RepeError> {
+        let len = u32::from_le_bytes(req.body[..4].try_into().unwrap()) as usize;
+        Ok(Message::builder()
+            .id(req.header.id)
+            .query_format(repe::QueryFormat::JsonPointer)
+            .body_bytes(vec![req.body[4]; len])
+            .body_format_code(0x7005)
+            .build())
+    }
+    fn handle_with_ctx(&self, req: &Message, ctx: &CallContext) -> Result<Message, RepeError> {
+        let n = req.body[5] as usize;
+        for k in 0..n {
+            let at = 6 + k * 5;
+            let len = u32::from_le_bytes(req.body[at..at + 4].try_into().unwrap()) as usize;
+            let f = req.body[at + 4];
+            let ok = match ctx.peer() {
+                Some(p) => p.send_notify("/pushed", NotifyBody::Raw(vec![f; len], BodyFormat::RawBinary)).is_ok(),
+                None => false,
+            };
+            self.pushed.lock().unwrap().push(("/pushed", len, f, ok));
+        }
+        self.handle(req)
+    }
+    fn execution(&self) -> Execution {
+        if self.off_reader { Execution::OffReader } else { Execution::Inline }
+    }
+}
+
+fn image(id: u64, notify: u8, path: &str, body_format: u16, len: usize, fill: u8) -> Vec<u8> {
+    let h = OHeader {
+        spec: codec::MAGIC,
+        version: 1,
+        notify,
+        id,
+        query_format: 1,
+        body_format,
+        ..OHeader::default()
+    };
+    codec::encode_frame(&h, path.as_bytes(), &vec![fill; len])
+}
+
+pub fn check(c: &WsCase) -> CheckResult {
+    let pushed: Pushed = Arc::new(Mutex::new(Vec::new()));
+    let router = Router::new()
+        .with_erased_handler(
+            "/inline",
+            Arc::new(Work {
+                off_reader: false,
+                pushed: pushed.clone(),
+            }),
+        )
+        .with_erased_handler(
+            "/off",
+            Arc::new(Work {
+                off_reader: true,
+                pushed: pushed.clone(),
+            }),
+        );
+    let peers = PeerRegistry::new();
+    let capacity = [1usize, 2, 8, 64, 1024][c.capacity as usize % 5];
+    let buf = [1usize << 10, 1 << 14, 1 << 16, 1 << 20][c.buf as usize % 4];
+    let shared = WebSocketServer::new(router)
+        .with_outbound_capacity(capacity)
+        .with_peer_registry(peers.clone())
+        .on_error(|_| {})
+        .into_shared();
+    // request frames and the response images expected for them
+    let mut requests = Vec::new();
+    let mut expected_responses = Vec::new();
+    for (i, r) in c.reqs.iter().enumerate() {
+        let id = i as u64 + 1;
+        let len = SIZES[r.size as usize % SIZES.len()];
+        let fill = 0x20 + i as u8;
+        let mut body = (len as u32).to_le_bytes().to_vec();
+        body.push(fill);
+        body.push(r.pushes.len() as u8);
+        for (k, p) in r.pushes.iter().enumerate() {
+            body.extend_from_slice(&(SIZES[*p as usize % SIZES.len()] as u32).to_le_bytes());
+            body.push(0x80 + (i * 4 + k) as u8);
+        }
+        let path = if r.off_reader { "/off" } else { "/inline" };
+        requests.push(frame_with(id, 0, path.as_bytes(), 1, &body, 0, 0));
+        expected_responses.push(image(id, 0, path, 0x7005, len, fill));
+    }
+    let n_req = requests.len();
+    let bcasts: Vec<(usize, u8)> = c
+        .broadcasts
+        .iter()
+        .enumerate()
+        .map(|(i, s)| (SIZES[*s as usize % SIZES.len()], 0xE0 + i as u8))
+        .collect();
+    let stall = Duration::from_millis(c.stall_ms as u64);
+    let waits = if failure_seen() { Duration::from_millis(1500) } else { Duration::from_secs(20) };
+
+    let messages: Vec<Vec<u8>> = block_on(async {
+        let conn = dws::connect(&shared, buf).await;
+        let (mut sink, mut stream) = conn.io.ws.split();
+        let sender = tokio::spawn(async move {
+            for r in requests {
+                if sink.send(WsMessage::Binary(r)).await.is_err() {
+                    break;
+                }
+            }
+            sink
+        });
+        let pushed_b = pushed.clone();
+        let peers_b = peers.clone();
+        let broadcaster = tokio::task::spawn_blocking(move || {
+            for (len, f) in bcasts {
+                let res = peers_b.broadcast_notify_raw("/bcast", BodyFormat::RawBinary, &vec![f; len]);
+                let ok = res.len() == 1 && res.values().all(|r| r.is_ok());
+                pushed_b.lock().unwrap().push(("/bcast", len, f, ok));
+                std::thread::yield_now();
+            }
+        });
+        let mut msgs: Vec<Vec<u8>> = Vec::new();
+        let mut responses = 0usize;
+        let mut notifies = 0usize;
+        let mut bdone = false;
+        let mut broadcaster = Some(broadcaster);
+        let deadline = tokio::time::Instant::now() + waits;
+        let mut stalled = false;
+        loop {
+            if responses >= n_req && !bdone {
+                if let Some(b) = broadcaster.take() {
+                    let _ = b.await;
+                }
+                bdone = true;
+            }
+            if responses >= n_req && bdone {
+                let want = pushed.lock().unwrap().iter().filter(|p| p.3).count();
+                if notifies >= want {
+                    break;
+                }
+            }
+            // once everything was issued, what is still queued arrives promptly
+            let idle = if responses >= n_req && bdone { Duration::from_millis(400) } else { waits };
+            let next = tokio::time::timeout_at(deadline.min(tokio::time::Instant::now() + idle), stream.next()).await;
+            match next {
+                Err(_) => break,
+                Ok(None) | Ok(Some(Err(_))) => break,
+                Ok(Some(Ok(WsMessage::Binary(b)))) => {
+                    if b.len() >= 48 && b[11] == 0 {
+                        responses += 1;
+                    } else {
+                        notifies += 1;
+                    }
+                    msgs.push(b);
+                    if !stalled {
+                        stalled = true;
+                        tokio::time::sleep(stall).await;
+                    }
+                }
+                Ok(Some(Ok(_))) => {}
+            }
+        }
+        if let Some(b) = broadcaster.take() {
+            let _ = b.await;
+        }
+        sender.abort();
+        conn.server.abort();
+        msgs
+    });
+
+    // the oracle: every message is exactly one frame and the image of one issued message
+    let issued = pushed.lock().unwrap().clone();
+    let mut used_resp = vec![false; expected_responses.len()];
+    let mut used_push = vec![false; issued.len()];
+    let mut duplicates = 0usize;
+    for (k, m) in messages.iter().enumerate() {
+        match codec::parse(m) {
+            codec::Parse::Frame { trailing: 0, .. } => {}
+            other => {
+                return Err(Fail::new(
+                    "ws-message-not-one-frame",
+                    format!("message {k} ({} bytes) is not exactly one frame: {other:?}", m.len()),
+                ));
+            }
+        }
+        let h = OHeader::raw(m);
+        if h.notify == 0 {
+            let idx = h.id.wrapping_sub(1) as usize;
+            ensure!(
+                idx < expected_responses.len() && *m == expected_responses[idx],
+                "ws-frame-content-foreign",
+                "message {k} is a well-formed response (id {}, {} bytes) but not the image of the response issued for that request: {}",
+                h.id,
+                m.len(),
+                expected_responses.get(idx).map(|e| crate::util::diff_msg("message vs issued response", m, e)).unwrap_or_else(|| "no such request".into())
+            );
+            if used_resp[idx] {
+                duplicates += 1;
+            }
+            used_resp[idx] = true;
+        } else {
+            // match an issued notify (queued or reported as refused: only content matters here)
+            let hit = issued.iter().enumerate().position(|(i, (path, len, f, _))| {
+                !used_push[i] && m.len() == 48 + path.len() + len && *m == image(0, 1, path, BodyFormat::RawBinary as u16, *len, *f)
+            });
+            match hit {
+                Some(i) => used_push[i] = true,
+                None => {
+                    let again = issued
+                        .iter()
+                        .any(|(path, len, f, _)| m.len() == 48 + path.len() + len && *m == image(0, 1, path, BodyFormat::RawBinary as u16, *len, *f));
+                    ensure!(
+                        again,
+                        "ws-frame-content-foreign",
+                        "message {k} is a well-formed notify ({} bytes, body starts {}) but not the image of any notify the server side issued",
+                        m.len(),
+                        crate::util::hex(&m[48.min(m.len())..m.len().min(72)])
+                    );
+                    duplicates += 1;
+                }
+            }
+        }
+    }
+    let whole_responses = used_resp.iter().filter(|u| **u).count();
+    let refused = issued.iter().filter(|p| !p.3).count();
+    let concurrent_sources = (c.reqs.iter().any(|r| r.off_reader) as usize) + (c.reqs.iter().any(|r| !r.pushes.is_empty()) as usize) + (!c.broadcasts.is_empty()) as usize;
+    Ok(CaseInfo::new(concurrent_sources >= 2 && messages.len() >= 3)
+        .class(format!("sources={concurrent_sources}"))
+        .class(if whole_responses == n_req { "all-responses-seen" } else { "responses-outstanding-at-end" })
+        .class(if refused > 0 { "queue-full-refusals" } else { "no-refusals" })
+        .class(if duplicates > 0 { "duplicates-seen" } else { "no-duplicates" })
+        .class(if c.stall_ms > 0 { "peer-stalled" } else { "peer-prompt" }))
+}
+
+fn ws_case() -> BoxedStrategy<WsCase> {
+    let req = (any::<bool>(), 0u8..10, prop::collection::vec(0u8..10, 0..4)).prop_map(|(off_reader, size, pushes)| Req { off_reader, size, pushes });
+    (
+        prop::collection::vec(req, 1..=24),
+        prop::collection::vec(0u8..10, 0..6),
+        prop_oneof![1 => Just(0u8), 2 => 1u8..60],
+        0u8..4,
+        0u8..5,
+    )
+        .prop_map(|(mut reqs, mut broadcasts, stall_ms, buf, capacity)| {
+            // bound the volume: at most 5 MiB-sized payloads per case
+            let mut big = 0;
+            let mut cap = |s: &mut u8| {
+                if *s >= 8 {
+                    big += 1;
+                    if big > 5 {
+                        *s %= 8;
+                    }
+                }
+            };
+            for r in reqs.iter_mut() {
+                cap(&mut r.size);
+                for p in r.pushes.iter_mut() {
+                    cap(p);
+                }
+            }
+            for b in broadcasts.iter_mut() {
+                cap(b);
+            }
+            WsCase {
+                reqs,
+                broadcasts,
+                stall_ms,
+                buf,
+                capacity,
+            }
+        })
+        .boxed()
+}
+
+pub fn run(ctx: &Ctx, rep: &Report) {
+    run_prop(ctx, rep, "ws-server-writers", ctx.tier.pick(250, 6_000), &|| ws_case(), &check);
+}
+
+pub fn replay(sub: &str, case: &Value) -> Result<(), Fail> {
+    match sub {
+        "ws-server-writers" => replay_case::<WsCase>(case, &check),
+        _ => Err(Fail::new("replay-unknown-sub", sub.to_string())),
+    }
 }
